@@ -34,6 +34,8 @@ type Case struct {
 	Trailer string `json:"trailer"`
 	Chunks  []int  `json:"chunks"`
 	Desc    string `json:"desc"`
+	// Source: the concrete type of the reader NewValue is given (hio.SourceKinds)
+	Source string `json:"source,omitempty"`
 }
 
 func valueOpts() gen.ValueOpts {
@@ -54,6 +56,7 @@ func genCase(t *rapid.T) Case {
 		Hex:     hex.EncodeToString(ref.EncodeDyn(d)),
 		Trailer: hex.EncodeToString(rapid.SliceOfN(rapid.Byte(), 0, 8).Draw(t, "trailer")),
 		Chunks:  gen.FragPlan().Draw(t, "plan").Chunks,
+		Source:  rapid.SampledFrom(hio.SourceKinds).Draw(t, "source"),
 		Desc:    desc,
 	}
 }
@@ -129,7 +132,12 @@ func checkCase(c Case) error {
 		return vt.Violationf(cls+":layout", "encoding of %s differs from the documented serialization\n got  %x\n want %x", c.Desc, b, refBytes)
 	}
 	// decode from a fragmented stream with trailing bytes
-	r := hio.NewFragReader(append(append([]byte{}, b...), trailer...), c.Chunks, false)
+	// (a plain io.Writer must be given the same bytes as the bytes.Buffer was)
+	rec := &hio.RecWriter{}
+	if err := v.Write(rec); err != nil || !bytes.Equal(rec.Bytes(), b) {
+		return vt.Violationf(cls+":layout:plain-writer", "encoding of %s into a plain io.Writer: error %v\n got  %x\n want %x", c.Desc, err, rec.Bytes(), b)
+	}
+	r, consumed := hio.Source(c.Source, append(append([]byte{}, b...), trailer...), c.Chunks, false)
 	v2, err := value.NewValue(r)
 	if err != nil {
 		return vt.Violationf(cls+":decode-error", "NewValue rejects the encoding of %s: %v", c.Desc, err)
@@ -137,8 +145,8 @@ func checkCase(c Case) error {
 	if v2 == nil {
 		return vt.Violationf(cls+":decode-nil", "NewValue returned nil for %s", c.Desc)
 	}
-	if r.Pos != len(b) {
-		return vt.Violationf(cls+":consumed", "NewValue consumed %d bytes, the encoder produced %d (%s)", r.Pos, len(b), c.Desc)
+	if consumed() != len(b) {
+		return vt.Violationf(cls+":consumed", "NewValue consumed %d bytes, the encoder produced %d (%s)", consumed(), len(b), c.Desc)
 	}
 	if v2.Signature() != v.Signature() {
 		return vt.Violationf(cls+":signature", "decoded signature %q, encoded %q", v2.Signature(), v.Signature())
